@@ -5,6 +5,7 @@ package main
 // nothing from the implementation.
 
 import (
+	"sync"
 	"fmt"
 	"math"
 	"regexp"
@@ -162,6 +163,7 @@ func checkConservation(sc *Scenario, w *OpResult) []Issue {
 			prev, prevW = p, x
 		}
 		kind := strings.TrimRight(f, "0123456789_")
+		clause("C02 words of flow kind "+kind+" (once, in order)", len(e.Flows[f]))
 		if len(lost) > 0 {
 			out = append(out, Issue{"words:lost", kind, fmt.Sprintf("flow %s: %d words never drawn: %s", f, len(lost), clipList(lost))})
 		}
@@ -172,6 +174,23 @@ func checkConservation(sc *Scenario, w *OpResult) []Issue {
 			out = append(out, Issue{"words:reordered", kind, fmt.Sprintf("flow %s: %s", f, reordered)})
 		}
 	}
+	if e.RepeatOncePerPage {
+		for p, ws := range w.PageWords {
+			n := map[string]int{}
+			for _, x := range ws {
+				if wi.repeat[x] {
+					n[x]++
+				}
+			}
+			for _, x := range e.Repeat {
+				clause("C02 fixed-position text exactly once per page", 1)
+				if n[x] != 1 {
+					out = append(out, Issue{"words:duplicated", "fixed", fmt.Sprintf("fixed-position text %q is drawn %d times on page %d (CSS repeats it once per page)", x, n[x], p+1)})
+				}
+			}
+		}
+	}
+	clause("C02 CSS-defined repeating words drawn", len(wi.repeat))
 	for x := range wi.repeat {
 		if count[x] == 0 {
 			out = append(out, Issue{"words:lost", "repeat", fmt.Sprintf("repeating word %q never drawn", x)})
@@ -278,6 +297,22 @@ func checkRestartEquivalence(twin, w *OpResult) []Issue {
 
 // ---- C12
 
+// clauseChecks counts how often each oracle clause was actually evaluated on a
+// concrete object (a page, a paragraph, a link ...): a clause stuck at zero is a blind oracle.
+var clauseChecks = struct {
+	sync.Mutex
+	m map[string]int
+}{m: map[string]int{}}
+
+func clause(name string, n int) {
+	if n <= 0 {
+		return
+	}
+	clauseChecks.Lock()
+	clauseChecks.m[name] += n
+	clauseChecks.Unlock()
+}
+
 func approx(a, b float64) bool { return math.Abs(a-b) < 0.01 }
 
 func checkPages(sc *Scenario, w, l *OpResult, active []int) []Issue {
@@ -315,6 +350,7 @@ func checkPages(sc *Scenario, w, l *OpResult, active []int) []Issue {
 					continue
 				}
 				found++
+				clause("C12 counter(page)/counter(pages) in a margin box", 1)
 				pp, _ := strconv.Atoi(m[1])
 				nn, _ := strconv.Atoi(m[2])
 				if pp != p+1 {
@@ -337,6 +373,7 @@ func checkPages(sc *Scenario, w, l *OpResult, active []int) []Issue {
 			for _, x := range ws {
 				have[x] = true
 			}
+			clause("C12 margin boxes with their own counter state (page)", 1)
 			for _, want := range []string{fmt.Sprintf("tl%d", p+1), fmt.Sprintf("tc%dof%d", p+1, n), fmt.Sprintf("nx%d", p+2), "bl7", fmt.Sprintf("br0%d", p+1)} {
 				if !have[want] {
 					out = append(out, Issue{"counter:margin-box", want[:2], fmt.Sprintf("page %d: margin box text %q expected (each margin box has its own copy of the page counters)", p+1, want)})
@@ -364,6 +401,7 @@ func checkPages(sc *Scenario, w, l *OpResult, active []int) []Issue {
 					continue // inactive literal
 				}
 				nActive++
+				clause("C12 in-flow counter(pages) probe, active", 1)
 				if v != n {
 					out = append(out, Issue{"counter:pages", "in-flow-probe", fmt.Sprintf("in-flow counter(pages) shows %d but %d pages were emitted", v, n)})
 				}
@@ -395,6 +433,7 @@ func checkPages(sc *Scenario, w, l *OpResult, active []int) []Issue {
 					wantW, wantH, kind = s[0], s[1], name
 				}
 			}
+			clause("C12 AddPage size vs @page ("+map[bool]string{true: "default", false: "first/blank/named"}[kind == "default"]+")", 1)
 			if !approx(pg.Width, wantW) || !approx(pg.Height, wantH) {
 				out = append(out, Issue{"page:size", kind, fmt.Sprintf("page %d (%s) was added with size %gx%g, @page says %gx%g", p+1, kind, pg.Width, pg.Height, wantW, wantH)})
 			}
@@ -406,6 +445,7 @@ func checkPages(sc *Scenario, w, l *OpResult, active []int) []Issue {
 		if !ok {
 			continue // conservation reports it
 		}
+		clause("C12 forced break starts a page ("+fb.Side+")", 1)
 		if firstMain[p] != fb.Word {
 			out = append(out, Issue{"break:forced-not-at-top", fb.Side, fmt.Sprintf("block starting with %q carries a forced break but page %d starts with %q", fb.Word, p+1, firstMain[p])})
 		}
@@ -452,6 +492,7 @@ func checkPages(sc *Scenario, w, l *OpResult, active []int) []Issue {
 				continue
 			}
 			sort.Ints(pages)
+			clause("C12 orphans/widows of a paragraph split over pages", 1)
 			total := 0
 			for _, pg := range pages {
 				total += len(perPage[pg])
@@ -476,6 +517,7 @@ func checkPages(sc *Scenario, w, l *OpResult, active []int) []Issue {
 				pgs[p] = true
 			}
 		}
+		clause("C12 break-inside: avoid box", 1)
 		if len(pgs) > 1 {
 			out = append(out, Issue{"break:avoid-inside", "break-inside", fmt.Sprintf("box starting with %q has break-inside: avoid and fits a page, but is split over %d pages", grp[0], len(pgs))})
 		}
@@ -483,6 +525,9 @@ func checkPages(sc *Scenario, w, l *OpResult, active []int) []Issue {
 	for _, kw := range e.KeepWithNext {
 		pa, oka := pageOf[kw[0]]
 		pb, okb := pageOf[kw[1]]
+		if oka && okb {
+			clause("C12 break-after: avoid pair", 1)
+		}
 		if oka && okb && pa != pb {
 			out = append(out, Issue{"break:avoid-after", "break-after", fmt.Sprintf("%q has break-after: avoid but the next box (%q) starts on page %d instead of %d", kw[0], kw[1], pb+1, pa+1)})
 		}
@@ -495,6 +540,9 @@ func checkPages(sc *Scenario, w, l *OpResult, active []int) []Issue {
 		}
 		sort.Strings(ks)
 		for _, k := range ks {
+			if _, ok := pageOf[k]; ok {
+				clause("C12 block page vs greedy placement model", 1)
+			}
 			if got, ok := pageOf[k]; ok && got != e.WordPage[k] {
 				out = append(out, Issue{"page:placement", "fixed-height-blocks", fmt.Sprintf("block %q is on page %d, the greedy model of fixed-height blocks puts it on page %d (a page ended early or late)", k, got+1, e.WordPage[k]+1)})
 				break
@@ -507,6 +555,10 @@ func checkPages(sc *Scenario, w, l *OpResult, active []int) []Issue {
 			limit := g.ContentBottom
 			if g.FootnoteTop > 0 && g.FootnoteTop < limit {
 				limit = g.FootnoteTop
+			}
+			clause("C12 blocks above content bottom / footnote area (page)", 1)
+			if g.FootnoteTop > 0 && g.FootnoteTop < g.ContentBottom {
+				clause("C12 blocks above a non-empty footnote area (page)", 1)
 			}
 			if g.MaxBlockBottom > limit+0.01 {
 				out = append(out, Issue{"page:overflow", "block-below-limit", fmt.Sprintf("page %d: an in-flow block ends at y=%g, below the limit y=%g (content box bottom / footnote area top)", p+1, g.MaxBlockBottom, limit)})
@@ -530,10 +582,32 @@ func checkPages(sc *Scenario, w, l *OpResult, active []int) []Issue {
 			if !ok {
 				continue
 			}
+			clause("C12 page margins by kind ("+strings.SplitN(kind, "-", 2)[0]+")", 1)
 			got := [4]float64{g.MT, g.MR, g.MB, g.ML}
 			for i := range want {
 				if !approx(got[i], want[i]) {
 					out = append(out, Issue{"page:margins", kind, fmt.Sprintf("page %d (%s) has margins %v (top right bottom left), the matching @page rules give %v", p+1, kind, got, want)})
+					break
+				}
+			}
+		}
+	}
+	// @page :nth(an+b) rules: margins of page i = base overridden by every matching rule, in order
+	if l != nil && l.Status == "ok" && len(e.PageMarginsNth) > 0 && len(l.PageGeom) == n {
+		for p, g := range l.PageGeom {
+			want := e.PageMarginsBase
+			var matched []string
+			for _, r := range e.PageMarginsNth {
+				if r.matches(p + 1) {
+					want[r.Side] = r.Value
+					matched = append(matched, fmt.Sprintf(":nth(%dn%+d)", r.A, r.B))
+				}
+			}
+			clause("C12 page margins from @page :nth(an+b) rules (page)", 1)
+			got := [4]float64{g.MT, g.MR, g.MB, g.ML}
+			for i := range want {
+				if !approx(got[i], want[i]) {
+					out = append(out, Issue{"page:margins", "nth", fmt.Sprintf("page %d has margins %v (top right bottom left); the @page rules matching it (%s) give %v", p+1, got, strings.Join(matched, " "), want)})
 					break
 				}
 			}
@@ -569,6 +643,7 @@ func checkPages(sc *Scenario, w, l *OpResult, active []int) []Issue {
 		}
 		for p := 0; p+1 < n; p++ {
 			if lastPara(p) >= 0 && lastPara(p) == firstPara(p+1) {
+				clause("C12 page ending mid-paragraph is full", 1)
 				g := l.PageGeom[p]
 				if left := g.ContentBottom - g.MaxLineBottom; left >= e.LineHeight-0.01 {
 					out = append(out, Issue{"page:underfull", "mid-paragraph", fmt.Sprintf("page %d ends in the middle of a paragraph with %gpx unused, although one more %gpx line fits", p+1, left, e.LineHeight)})
@@ -579,6 +654,12 @@ func checkPages(sc *Scenario, w, l *OpResult, active []int) []Issue {
 	// geometry from the laid-out tree
 	if l != nil && l.Status == "ok" && e.Geometry {
 		for p, g := range l.PageGeom {
+			if e.FitsPage {
+				clause("C12 lines inside the content box (page)", 1)
+			}
+			if e.Plain && p < len(l.PageGeom)-1 && g.MaxLineBottom > 0 {
+				clause("C12 plain page is full", 1)
+			}
 			if e.FitsPage && g.MaxLineBottom > g.ContentBottom+0.01 {
 				out = append(out, Issue{"page:overflow", "line-below-content-box", fmt.Sprintf("page %d: a main-flow line ends at y=%g, below the page content box (%g)", p+1, g.MaxLineBottom, g.ContentBottom)})
 			}
@@ -599,6 +680,7 @@ func checkBackendProtocol(sc *Scenario, w *OpResult) []Issue {
 		return nil
 	}
 	var out []Issue
+	clause("C14 backend calls seen by the protocol monitor", w.Calls)
 	for _, v := range w.Violations {
 		where := v.Frame
 		if where == "" {
@@ -635,6 +717,7 @@ func checkBackendProtocol(sc *Scenario, w *OpResult) []Issue {
 		if !drawn {
 			continue
 		}
+		clause("C14 anchor = first element with the id", 1)
 		if !has {
 			out = append(out, Issue{"links:anchor-missing", "CreateAnchors", fmt.Sprintf("element id=%q (marker %q, page %d) has no anchor in CreateAnchors", id, word, wp+1)})
 		} else if ap != wp {
@@ -654,11 +737,13 @@ func checkBackendProtocol(sc *Scenario, w *OpResult) []Issue {
 		if !drawn {
 			continue
 		}
+		clause("C14 internal link emitted on its page", 1)
 		if !internal[fmt.Sprintf("%d>%s", wp, l.Target)] {
 			out = append(out, Issue{"links:internal-missing", "AddInternalLink", fmt.Sprintf("link %q -> #%s on page %d was not emitted", l.Word, l.Target, wp+1)})
 		}
 	}
 	for _, d := range e.Dangling {
+		clause("C14 dangling link dropped", 1)
 		if targets[d] {
 			out = append(out, Issue{"links:dangling-emitted", "AddInternalLink", fmt.Sprintf("internal link to undefined anchor %q was emitted", d)})
 		}
@@ -677,8 +762,10 @@ func checkBackendProtocol(sc *Scenario, w *OpResult) []Issue {
 			if p, ok := pageOf[b.Word]; ok {
 				pg = p
 			}
-			want = append(want, fmt.Sprintf("%d|%s|%d", depth, b.Label, pg))
+			// "{page}" in an expected label: the page counter where the element starts
+			want = append(want, fmt.Sprintf("%d|%s|%d", depth, strings.ReplaceAll(b.Label, "{page}", strconv.Itoa(pg+1)), pg))
 		}
+		clause("C14 outline entries (depth, label, page)", len(want))
 		if strings.Join(want, "\n") != strings.Join(w.Bookmarks, "\n") {
 			k := 0
 			for k < len(want) && k < len(w.Bookmarks) && want[k] == w.Bookmarks[k] {
@@ -700,6 +787,7 @@ func checkBackendProtocol(sc *Scenario, w *OpResult) []Issue {
 	}
 	sort.Strings(mk)
 	for _, k := range mk {
+		clause("C14 metadata field forwarded", 1)
 		if w.Meta[k] != e.Meta[k] {
 			out = append(out, Issue{"metadata:" + k, "Set" + k, fmt.Sprintf("metadata %s: document says %q, backend got %q", k, e.Meta[k], w.Meta[k])})
 		}
